@@ -46,6 +46,11 @@ TEXTS = {
   "ref": "DESIGN.md 4 C16", "technique": TLA,
   "note": "pending-pool status is covered by C18; known finding KF-C16-txheight",
  },
+ "C13": {
+  "level": "Query.tla states what a page is: the matching entries (script of the right kind starting with the search script; filter script prefix / exact filter script for transactions, script length, data length, capacity and block ranges) after the cursor, in the byte order of the stored keys (script bytes then big-endian numbers, so that entries of scripts that are prefixes of each other interleave exactly as in RocksDB), the first `limit` of them without repetition, descending = reverse, the next cursor = the last returned key; grouped transactions = runs of one transaction, pages ending at a group boundary; capacity = the sum over the same matching cells with the tip of the same snapshot.  On the real RPC implementation, for indices produced by honest syncs of generated transaction graphs, random search keys (exact, shorter, longer and foreign scripts, lock / type, every filter incl. empty and inverted ranges, both orders, limits 1-4 and 100, with / without data, grouped / ungrouped) are paged to the end; every page is validated by TLC against the index read back from RocksDB (PageOk: exactly the first entries, nothing skipped, nothing repeated) and every completed query against the full matching set (every entry exactly once in key order).",
+  "ref": "DESIGN.md 4 C13", "technique": TLA,
+  "note": "one defect found and repaired (search scripts longer than a stored script); no separate TLC model: the property is about one pure function of the index, decided on logged calls",
+ },
  "C14": {
   "level": "Difficulty.tla transcribes verify_tau and verify_total_difficulty (tau exponent, split of the epochs, estimated limits with their short circuits) and states the demand: MustReject (decrease, mismatch within one epoch / across one switch, epoch difficulty or total moving faster than tau per epoch) and the tight envelope every legal history lies in.  MC_Difficulty is the chain's difficulty history as a transition system (epochs of length 1-3 and block difficulty up to 8 appended one at a time, every switch within tau, up to 5 epochs): in every reachable history every pair of positions must pass VerifyTau, lie in the tight envelope, not be in MustReject and be accepted by VerifyTotalDifficulty; an exhaustive grid of arbitrary inputs checks MustReject => reject.  Trace_Difficulty binds the real functions to the transcription: on tens of thousands of logged calls (grid inputs incl. malformed positions and epochs out of order, totals around every bound; random legal histories logged with the history as witness, which TLC re-checks) the real verdicts of both functions must EQUAL the specified ones; legal histories with up to 3000 epochs and 12-200-bit difficulties must be accepted and arbitrary 64/256-bit numbers must not abort.",
   "ref": "DESIGN.md 4 C14", "technique": TLA,
